@@ -355,6 +355,9 @@ type env struct {
 	nr     *NRStore
 	pool   *flushable.SyncedPool
 	pstore [nPoolDBs]kvdb.Store
+	achievable map[[2]uint64]bool // (count, bytes) of every subset of the buffer's events
+	evSizes    []int
+	torn       string
 	kept   [nPoolDBs]kvdb.Store
 	keptReads int
 	cache  *wlru.Cache
@@ -378,6 +381,13 @@ var poolMix int
 
 //go:norace
 func (e *env) keptReadInc() { e.keptReads++ }
+
+//go:norace
+func (e *env) noteTorn(msg string) {
+	if e.torn == "" {
+		e.torn = msg
+	}
+}
 
 var evParents = [][]int{{}, {0}, {0}, {1, 2}, {3}, {}}
 
@@ -435,6 +445,20 @@ func newEnv(c *sim.Ctx, comp int) *env {
 			ev := me.Build(rid)
 			e.evs = append(e.evs, ev)
 			e.byID[ev.ID()] = i
+		}
+		e.achievable = map[[2]uint64]bool{}
+		for _, ev := range e.evs {
+			e.evSizes = append(e.evSizes, ev.Size())
+		}
+		for m := 0; m < 1<<len(e.evs); m++ {
+			var n, sz uint64
+			for i := range e.evs {
+				if m&(1<<i) != 0 {
+					n++
+					sz += uint64(e.evSizes[i])
+				}
+			}
+			e.achievable[[2]uint64{n, sz}] = true
 		}
 		e.buf = dagordering.New(dag.Metric{Num: 100, Size: 1 << 20}, dagordering.Callback{
 			Process:  func(ev dag.Event) error { e.conn[e.byID[ev.ID()]] = true; return nil },
@@ -698,7 +722,12 @@ func (e *env) do(task int, op sim.Op) string {
 		case "isbuffered":
 			return fmt.Sprint(e.buf.IsBuffered(e.evs[i].ID()))
 		case "total":
-			return fmt.Sprint(e.buf.Total().Num)
+			t := e.buf.Total()
+			// whatever moment the lock-free accessor reads, the count and the byte size belong to ONE set of buffered events
+			if !e.achievable[[2]uint64{uint64(t.Num), t.Size}] {
+				e.noteTorn(fmt.Sprintf("Total() = {Num: %d, Size: %d}: no set of the %d events has that count and that size (event sizes %v)", t.Num, t.Size, len(e.evs), e.evSizes))
+			}
+			return fmt.Sprint(t.Num)
 		case "clear":
 			e.buf.Clear()
 			return ""
@@ -740,6 +769,9 @@ func (e *env) popHandle(task, i int) kvdb.Store {
 
 // after: invariants checked once every task has finished.
 func (e *env) after() string {
+	if e.torn != "" {
+		return e.torn
+	}
 	switch e.comp {
 	case cCached:
 		defer func() {
